@@ -12,8 +12,8 @@ const SPEC: Spec = Spec {
         "refint binary shift-subtract division is trusted; cross-checked against Python int on a transcript slice and self-checked by a = q*b + r on every pair",
         "x86_64 / 64-bit digits only (div_half path not built here)",
     ],
-    bounds_quick: "D1 Dense(S8,4)xDense(S8,3) (all APIs, 4 sign pairs); D2 every shift 0..63, one or two low digits, dividends Dense(S5,4); D3 Runs(S8,2,12)xRuns(S8,2,6); D4 constructed q*v+r for v in Dense(S8,3) normalised, q in Dense(S8,2), r in {0,1,v-1}, digit shifts 0..2; D5 zero divisor x pool; D6 scalar forms; D7 dense LCG digits, lengths <= 24 / <= 12, 3 x 10 members",
-    bounds_thorough: "D1 Dense(S8,4)xDense(S8,4) (all APIs, 4 sign pairs) + Dense(S8,5)xDense(S8,3) (core forms); D2 as quick; D3 Runs(S8,3,12)xRuns(S8,2,8); D4; D5; D6; D7 lengths <= 48 / <= 24",
+    bounds_quick: "D1 Dense(S8,4)xDense(S8,3) (all APIs, 4 sign pairs); D2 every shift 0..63, one or two low digits, dividends Dense(S5,4); D3 Runs(S8,2,12)xRuns(S8,2,6); D4 constructed q*v+r for v in Dense(S8,3) normalised, q in Dense(S8,2), r in {0,1,v-1}, digit shifts 0..2; D5 zero divisor x pool; D6 scalar forms; D7 dense LCG digits, lengths <= 24 / <= 12, 3 x 10 members; D8 (Dense(S5,3)+lengths 3..12) x (Dense(S5,2)+lengths 3..8) through /= %= and the owning forms on operands with spare buffer capacity",
+    bounds_thorough: "D1 Dense(S8,4)xDense(S8,4) (all APIs, 4 sign pairs) + Dense(S8,5)xDense(S8,3) (core forms); D2 as quick; D3 Runs(S8,3,12)xRuns(S8,2,8); D4; D5; D6; D7 lengths <= 48 / <= 24; D8 with lengths up to 20",
     hang_secs: 120,
     probes: Some(probes),
     max_workers: 16,
@@ -583,6 +583,82 @@ fn body(ctx: &mut Ctx) {
             Tier::Thorough => (alpha::runs(&alpha::SIGMA8, 3, 12).iter().map(|d| mk(d)).collect(), alpha::runs(&alpha::SIGMA8, 2, 8).iter().map(|d| mk(d)).collect()),
         };
         product(ctx, "D3", &a, &b, false);
+    }
+    // D8: the in-place / owning forms on operands whose buffer has spare capacity
+    if ctx.space("D8") {
+        let mut av: Vec<Vec<u64>> = alpha::dense(&alpha::SIGMA5, 3);
+        let mut bv: Vec<Vec<u64>> = alpha::dense(&alpha::SIGMA5, 2);
+        for l in 3..=tier.pick(12usize, 20usize) {
+            av.push(alpha::lcg_digits(l, 5));
+            av.push(vec![alpha::M; l]);
+            if l <= 8 {
+                bv.push(alpha::lcg_digits(l, 6));
+                let mut v = vec![0u64; l];
+                v[l - 1] = alpha::H;
+                bv.push(v);
+            }
+        }
+        let a: Vec<Op> = av.iter().map(|d| mk(d)).collect();
+        let b: Vec<Op> = bv.iter().filter(|d| !d.is_empty()).map(|d| mk(d)).collect();
+        for (i, x) in a.iter().enumerate() {
+            if !ctx.mine(i as u64) {
+                continue;
+            }
+            for (j, y) in b.iter().enumerate() {
+                ctx.inner(j as u64);
+                ctx.case();
+                let need = x.n.len() + y.n.len() + 3;
+                let (q, r) = x.n.divrem(&y.n);
+                let (_, cap) = with_slack(&x.u, need);
+                if cap >= need {
+                    ctx.goal("dividend with spare capacity");
+                    if y.n.len() >= 2 && y.n.lt(&x.n) {
+                        ctx.nontrivial(1);
+                    }
+                }
+                let args = || vec![format!("a={}", x.n.to_hex()), format!("b={}", y.n.to_hex()), format!("capacity a={}", cap)];
+                let g = call(ctx, || {
+                    let mut t = with_slack(&x.u, need).0;
+                    t /= &y.u;
+                    t
+                });
+                expect_nat(ctx, "BigUint slack a/=&b", &args, g, &q);
+                let g = call(ctx, || {
+                    let mut t = with_slack(&x.u, need).0;
+                    t %= &y.u;
+                    t
+                });
+                expect_nat(ctx, "BigUint slack a%=&b", &args, g, &r);
+                let g = call(ctx, || {
+                    let mut t = with_slack(&x.u, need).0;
+                    t /= with_slack(&y.u, need).0;
+                    t
+                });
+                expect_nat(ctx, "BigUint slack a/=slack b", &args, g, &q);
+                let g = call(ctx, || with_slack(&x.u, need).0 / with_slack(&y.u, need).0);
+                expect_nat(ctx, "BigUint slack a/slack b", &args, g, &q);
+                let g = call(ctx, || with_slack(&x.u, need).0 % &y.u);
+                expect_nat(ctx, "BigUint slack a%&b", &args, g, &r);
+                let g = call(ctx, || &x.u % with_slack(&y.u, need).0);
+                expect_nat(ctx, "BigUint &a%slack b", &args, g, &r);
+                let g = call(ctx, || with_slack(&x.u, need).0.div_rem(&with_slack(&y.u, need).0));
+                chk_pair(ctx, "BigUint slack div_rem", &args, g, &q, &r);
+                // BigInt, truncating convention: -a / b = -(a/b), -a % b = -(a%b)
+                let g = call(ctx, || {
+                    let mut t = -BigInt::from(with_slack(&x.u, need).0);
+                    t /= BigInt::from(y.u.clone());
+                    t
+                });
+                expect_int(ctx, "BigInt slack -a/=b", &args, g, &Int::new(true, q.clone()));
+                let g = call(ctx, || {
+                    let mut t = -BigInt::from(with_slack(&x.u, need).0);
+                    t %= &-BigInt::from(y.u.clone());
+                    t
+                });
+                expect_int(ctx, "BigInt slack -a%=&-b", &args, g, &Int::new(true, r.clone()));
+            }
+            ctx.sample(|| format!("a={} (and every divisor) with spare-capacity buffers: /= %= and the owning / % div_rem forms", x.n.to_hex()));
+        }
     }
     // D4: constructed trial-quotient boundary cases
     if ctx.space("D4") {
